@@ -470,6 +470,15 @@ func (eng *Engine) verifyFunc(p *packages.Package, key string, safetyOnly bool) 
 			}()
 		}
 	}
+	// a `lit K ensures` clause whose literal no longer exists (or no longer escapes) would otherwise generate nothing: report
+	// the contract as undecided instead of passing silently
+	if u.ct != nil {
+		for _, bk := range sortedIntKeys(u.ct.LitEnsures) {
+			if !u.litChecked[bk] {
+				u.specErrors = append(u.specErrors, fmt.Sprintf("lit %d ensures: no escaping function literal #%d is verified in this function (removed, inlined or not reached by the engine)", bk, bk))
+			}
+		}
+	}
 	res.Obls = u.obls
 	res.Abstracted = u.c.abstr
 	res.SpecErrors = u.specErrors
@@ -566,6 +575,10 @@ func (u *Unit) runLit(fl *ast.FuncLit, k int) {
 	u.inlineStack, u.loopStack = savedStack, savedLoops
 	// `lit K ensures`: obligations at every return of the literal (result0.. = the returned values; locals of the literal by name)
 	if u.ct != nil && len(u.ct.LitEnsures[bk]) > 0 {
+		if u.litChecked == nil {
+			u.litChecked = map[int]bool{}
+		}
+		u.litChecked[bk] = true
 		rets := append([]*State{}, fr.rets...)
 		if end != nil && sig.Results().Len() == 0 {
 			rets = append(rets, end)
@@ -674,3 +687,12 @@ func (u *Unit) run() {
 }
 
 func (u *Unit) sortedHeapNames() []string { return sortedKeys(u.c.heapNames) }
+
+func sortedIntKeys[V any](m map[int]V) []int {
+	var ks []int
+	for k := range m {
+		ks = append(ks, k)
+	}
+	sort.Ints(ks)
+	return ks
+}
